@@ -49,6 +49,16 @@ func Query(goal ref.Term, max int) ProgStep {
 	return ProgStep{Kind: "query", Goal: ref.Enc(goal), Max: max, Text: ref.Text(goal) + "."}
 }
 
+// Directive builds a step that runs goal as a directive of a separately loaded text.
+func Directive(goal ref.Term) ProgStep {
+	return ProgStep{Kind: "directive", Goal: ref.Enc(goal), Text: ":- " + ref.Text(goal) + "."}
+}
+
+// Initialization builds a step that runs goal as an initialization goal of a separately loaded text.
+func Initialization(goal ref.Term) ProgStep {
+	return ProgStep{Kind: "initialization", Goal: ref.Enc(goal), Text: ":- initialization(" + ref.Text(goal) + ")."}
+}
+
 // StepResult is the compared observation of one step.
 type StepResult struct {
 	Impl     Outcome  `json:"impl"`
@@ -161,6 +171,44 @@ func RunProgOn(im *Impl, pc *ProgCase) (results []StepResult, firstDiff int, inc
 				r.Verdict, r.Why = "differ", "load failed in the implementation"
 			} else {
 				r.Verdict = "agree"
+			}
+		case "directive", "initialization":
+			vars := map[string]*ref.Var{}
+			goal := ref.Dec(st.Goal, vars)
+			if st.Kind == "directive" {
+				st.Text = ":- " + ref.Text(goal) + ".\n"
+			} else {
+				st.Text = ":- initialization(" + ref.Text(goal) + ").\n"
+			}
+			rr := world.Run(ref.ExpandStrings(goal, dq), nil, 1)
+			r.RefOut = rr.Out
+			if rr.Err != nil {
+				r.RefState, r.Verdict, r.Why = "unsupported", "inconclusive", rr.Err.Error()
+				inconclusive = true
+				results = append(results, r)
+				return
+			}
+			r.Impl = im.Exec(st.Text)
+			r.Verdict = "agree"
+			switch {
+			case rr.Ball != nil:
+				r.RefState, r.RefErr = "error", balls(rr.Ball)
+				if r.Impl.Status != "loaderr" || r.Impl.Err != r.RefErr {
+					r.Verdict, r.Why = "differ", "the error returned by Exec does not carry the ball: reference "+r.RefErr+" implementation "+r.Impl.Status+" "+r.Impl.Err
+				}
+			case len(rr.Canon) == 0:
+				r.RefState = "failed"
+				if r.Impl.Status != "loaderr" {
+					r.Verdict, r.Why = "differ", "a failing directive did not make Exec return an error"
+				}
+			default:
+				r.RefState = "ok"
+				if r.Impl.Status != "ok" {
+					r.Verdict, r.Why = "differ", "directive succeeds in the reference; implementation: "+r.Impl.Status+" "+r.Impl.Err
+				}
+			}
+			if r.Verdict == "agree" && r.Impl.Out != r.RefOut {
+				r.Verdict, r.Why = "differ", fmt.Sprintf("output differs: reference %q implementation %q", r.RefOut, r.Impl.Out)
 			}
 		case "query":
 			vars := map[string]*ref.Var{}
@@ -319,7 +367,10 @@ func (pc *ProgCase) Describe() string {
 			sb.WriteString(strings.ReplaceAll(strings.TrimSpace(s.Text), "\n", " "))
 			sb.WriteString("  ")
 		} else {
-			sb.WriteString("?- " + s.Text + "  ")
+			if s.Kind == "query" {
+				sb.WriteString("?- ")
+			}
+			sb.WriteString(strings.TrimSpace(s.Text) + "  ")
 		}
 	}
 	return strings.TrimSpace(sb.String())
